@@ -130,7 +130,7 @@ static int64_t eval_rval(Node *node, char ***label);
 static bool is_const_expr(Node *node);
 static Node *assign(Token **rest, Token *tok);
 static Node *logor(Token **rest, Token *tok);
-static double eval_double(Node *node);
+static long double eval_double(Node *node);
 static Node *conditional(Token **rest, Token *tok);
 static Node *logand(Token **rest, Token *tok);
 static Node *bitor(Token **rest, Token *tok);
@@ -1467,6 +1467,11 @@ write_gvar_data(Relocation *cur, Initializer *init, Type *ty, char *buf, int off
     return cur;
   }
 
+  if (ty->kind == TY_LDOUBLE) {
+    *(long double *)(buf + offset) = eval_double(init->expr);
+    return cur;
+  }
+
   char **label = NULL;
   uint64_t val = eval2(init->expr, &label);
 
@@ -2022,9 +2027,13 @@ int64_t const_expr(Token **rest, Token *tok) {
   return eval(node);
 }
 
-static double eval_double2(Node *node);
+static long double eval_double2(Node *node);
 
-static double eval_double(Node *node) {
+// Evaluate a floating-point constant expression. The value is carried
+// as a long double, but every operation is performed in the type of its
+// node (float, double or long double) so that the result is the one
+// the generated code computes at run time.
+static long double eval_double(Node *node) {
   add_type(node);
 
   if (is_integer(node->ty)) {
@@ -2033,24 +2042,48 @@ static double eval_double(Node *node) {
     return eval(node);
   }
 
-  // An expression of type float is evaluated in float, so round the
-  // result of every operation to float as the generated code does.
-  double val = eval_double2(node);
+  long double val = eval_double2(node);
   if (node->ty->kind == TY_FLOAT)
     return (float)val;
+  if (node->ty->kind == TY_DOUBLE)
+    return (double)val;
   return val;
 }
 
-static double eval_double2(Node *node) {
+static long double eval_binary(Node *node, long double x, long double y) {
+  if (node->ty->kind == TY_FLOAT) {
+    switch (node->kind) {
+    case ND_ADD: return (float)x + (float)y;
+    case ND_SUB: return (float)x - (float)y;
+    case ND_MUL: return (float)x * (float)y;
+    default: return (float)x / (float)y;
+    }
+  }
+
+  if (node->ty->kind == TY_DOUBLE) {
+    switch (node->kind) {
+    case ND_ADD: return (double)x + (double)y;
+    case ND_SUB: return (double)x - (double)y;
+    case ND_MUL: return (double)x * (double)y;
+    default: return (double)x / (double)y;
+    }
+  }
+
+  switch (node->kind) {
+  case ND_ADD: return x + y;
+  case ND_SUB: return x - y;
+  case ND_MUL: return x * y;
+  default: return x / y;
+  }
+}
+
+static long double eval_double2(Node *node) {
   switch (node->kind) {
   case ND_ADD:
-    return eval_double(node->lhs) + eval_double(node->rhs);
   case ND_SUB:
-    return eval_double(node->lhs) - eval_double(node->rhs);
   case ND_MUL:
-    return eval_double(node->lhs) * eval_double(node->rhs);
   case ND_DIV:
-    return eval_double(node->lhs) / eval_double(node->rhs);
+    return eval_binary(node, eval_double(node->lhs), eval_double(node->rhs));
   case ND_NEG:
     return -eval_double(node->lhs);
   case ND_COND:
@@ -2066,6 +2099,11 @@ static double eval_double2(Node *node) {
       if (node->lhs->ty->is_unsigned)
         return (float)(uint64_t)eval(node->lhs);
       return (float)eval(node->lhs);
+    }
+    if (node->ty->kind == TY_DOUBLE) {
+      if (node->lhs->ty->is_unsigned)
+        return (double)(uint64_t)eval(node->lhs);
+      return (double)eval(node->lhs);
     }
     if (node->lhs->ty->is_unsigned)
       return (uint64_t)eval(node->lhs);
